@@ -148,11 +148,10 @@ def reference_frame(stream: bytes, k: int = 0):
 TRIM_CONST = 20_000_000
 
 
-def clone_with_trim_threshold(packets_mod, threshold):
-    """Return a clone of packets.ccsds_generator whose literal 20_000_000 is ``threshold``.
-    None if the constant is not present in the code object (refactored code): the caller
-    then simply runs the genuine function."""
-    fn = packets_mod.ccsds_generator
+def clone_with_trim_threshold(packets_mod, threshold, name="ccsds_generator"):
+    """Return a clone of the module-level function ``name`` of packets.py whose literal 20_000_000 is ``threshold``.
+    None if the constant is not present in its code object: the caller then simply runs the genuine function."""
+    fn = getattr(packets_mod, name)
     fn = getattr(fn, "__verif_orig__", fn)
     found = [False]
 
@@ -191,12 +190,17 @@ class TrimKnob:
         self.named = {}
         if self.threshold is None:
             return self
-        # (a) the literal inside the function's code object -> clone with the constant replaced
-        clone = clone_with_trim_threshold(self.mod, self.threshold)
-        if clone is not None:
-            self.orig = self.mod.ccsds_generator
-            self.mod.ccsds_generator = clone
-            self.active = True
+        # (a) the literal inside the code object of the framer, or of any other function defined at the top level of the
+        #     module (helpers the framer was split into) -> clones with the constant replaced, installed under their names
+        self.origs = {}
+        for name, obj in list(self.mod.__dict__.items()):
+            if isinstance(getattr(obj, "__verif_orig__", obj), types.FunctionType) and \
+                    getattr(obj, "__module__", None) == self.mod.__name__:
+                clone = clone_with_trim_threshold(self.mod, self.threshold, name)
+                if clone is not None:
+                    self.origs[name] = obj
+                    self.mod.__dict__[name] = clone
+                    self.active = True
         # (b) the same value kept as a module-level named constant -> set it for the duration of the run
         for name, val in list(self.mod.__dict__.items()):
             if type(val) is int and val == TRIM_CONST and not name.startswith("__"):
@@ -206,9 +210,9 @@ class TrimKnob:
         return self
 
     def __exit__(self, *exc):
-        if self.orig is not None:
-            self.mod.ccsds_generator = self.orig
-            self.orig = None
+        for name, obj in getattr(self, "origs", {}).items():
+            self.mod.__dict__[name] = obj
+        self.origs = {}
         for name, val in self.named.items():
             self.mod.__dict__[name] = val
         self.named = {}
